@@ -425,6 +425,14 @@ func runCase(m *master, data []byte, c crashCase, file string) (res caseResult) 
 		eff--
 	}
 	exp := m.expectedState(c.L)
+	// a tail that happens to supply exactly the bytes that were cut off a state (1 in 256 per missing byte with PRNG
+	// garbage) leaves that state complete in the file: it is then the latest durable state
+	if nx := exp + 1; nx < len(m.States) {
+		o := int(m.States[nx].Off)
+		if o < c.L && o+stateLen <= len(content) && o+stateLen <= len(data) && bytes.Equal(content[c.L:o+stateLen], data[c.L:o+stateLen]) {
+			exp = nx
+		}
+	}
 	res.Expected = exp
 	clean := exp >= 0 && m.States[exp].SessionEnd && eff == int(m.States[exp].Off)+stateLen+tailLen &&
 		bytes.Equal(content[:eff], data[:eff])
